@@ -118,6 +118,7 @@ def check_structure(ctx, cfg, t, label):
         ctx.violation("compute", "config-not-in-header", f"configuration keys missing from the header: {missing_cfg[:3]}", case)
     if not surv:
         return
+    check_self_agreement(ctx, cfg, t, label)   # (h)
     # ---- (d) cross-stage consistency, evaluated by the Lean driver on the table's own columns
     frac = cfg.simulation.tau_shower.etau_frac
     E = np.asarray(t["tauEnergy"]); beta = np.asarray(t["beta_rad"]); ln = np.asarray(t["lenDec"])
@@ -216,6 +217,276 @@ def measure_draws(ctx, cfg, seed):
     return t, dc.per_stage
 
 
+# ----------------------------------------------------------------------------------------------------------------------------
+# (h) the table agrees with itself.  Property text: "every stage's columns are present with that length and MUTUALLY CONSISTENT
+# across stages, the header carries the four integral keywords of each enabled channel".  The integral stage writes, for one
+# channel, four header keywords and (Target mode) the per-instant integrand column from ONE array; the documented relation between
+# them is  <pre>MCINT = sum(column) / thrown instants,  <pre>NEVPASS = number of non-zero contributions,
+# <pre>MCINTUN = sqrt(var(column, ddof=1) / thrown instants).  Diffuse mode stores no integrand column; there the keywords are tied
+# to the table through what the stage documents about them (rows below the trigger threshold contribute nothing; the integral is the
+# geometric one times probabilities <= 0.826).  Evaluated on EVERY finished table that goes through check_structure, both modes,
+# every enabled channel; target_veto_runs() below supplies runs in which the relation is actually exercised.
+def _hdr(t, k):
+    v = t.meta[k]
+    return v[0] if isinstance(v, tuple) else v
+
+
+def check_self_agreement(ctx, cfg, t, label):
+    sim = cfg.simulation
+    target = sim.mode == "Target"
+    nthrown = int(sim.thrown_events)
+    rows = len(t)
+    if not rows or not nthrown:
+        return
+    chans = []
+    if cfg.detector.optical.enable:
+        chans.append(("Optical", "O", "tmcintopt"))
+    if cfg.detector.radio.enable:
+        chans.append(("Radio", "R", "tmcintrad"))
+    for method, pre, colname in chans:
+        keys = [pre + k for k in ("MCINT", "MCINTGO", "NEVPASS", "MCINTUN")]
+        if any(k not in t.meta for k in keys):
+            continue     # reported by check_structure (integral-keywords)
+        mi, mg, npass, mu = (_hdr(t, k) for k in keys)
+        mi, mg, mu = float(mi), float(mg), float(mu)
+        case = {"run": label, "mode": sim.mode, "channel": method, "thrown": nthrown, "rows": rows,
+                "header": {k: float(_hdr(t, k)) for k in keys}}
+        if target:
+            case["target"] = sim.target.model_dump()
+            case["sun_moon"] = cfg.detector.sun_moon.model_dump()
+        trig = thr = None
+        if method == "Optical" and "numPEs" in t.colnames:
+            thr = float(cfg.detector.optical.photo_electron_threshold)
+            trig = np.asarray(t["numPEs"], dtype=np.float64) >= thr
+        ctx.case((label, "self-agreement", method) if npass > 0 else None)
+        ctx.count(f"selfagree_{sim.mode}_{method}_runs")
+        ctx.count(f"selfagree_{sim.mode}_{method}_passing", int(npass))
+        # relations common to both modes
+        if not (float(npass) == int(npass) and 0 <= int(npass) <= rows):
+            ctx.violation("compute", "passing-count-vs-rows", f"{pre}NEVPASS = {npass} is not a count of the table's {rows} rows", case)
+        if np.isfinite(mi) and np.isfinite(mg):
+            if (mi > 0) != (int(npass) > 0):
+                ctx.violation("compute", "integral-vs-passing-count", f"{pre}MCINT = {mi!r} but {pre}NEVPASS = {int(npass)}: one of them says nothing passed", case)
+            if mi > 0.826 * mg * (1 + 1e-9):
+                ctx.violation("compute", "integral-above-geometric", f"{pre}MCINT = {mi!r} above 0.826 x {pre}MCINTGO = {mg!r}", case)
+        if trig is not None and int(npass) > int(trig.sum()):
+            ctx.violation("compute", "passing-count-vs-trigger-column", f"{pre}NEVPASS = {int(npass)} but only {int(trig.sum())} rows of numPEs reach the threshold {thr:g}", case)
+        if not target:
+            continue
+        if colname not in t.colnames:
+            continue     # reported by check_structure (missing-columns)
+        x = np.asarray(t[colname], dtype=np.float64)
+        nz = int(np.count_nonzero(x))
+        case.update({"column": colname, "sum(column)/thrown": float(x.sum() / nthrown), "nonzero_rows": nz})
+        if trig is not None and bool(cfg.detector.sun_moon.sun_moon_cuts) and "times" in t.colnames:
+            # how far the run exercises the relation: triggering instants that fall in bright time (real cut on the table's own times)
+            try:
+                from nuspacesim.simulation.geometry.too import ToOEvent
+                bright = ~np.asarray(ToOEvent(cfg).sun_moon_cut(t["times"]), dtype=bool)
+                nb = int(np.count_nonzero(bright & trig))
+                ctx.count("selfagree_Target_triggering_rows_in_bright_time", nb)
+                ctx.count("selfagree_Target_runs_with_bright_triggers", int(nb > 0))
+                case["triggering_rows_in_bright_time"] = nb
+            except Exception:  # noqa  (the counter is bookkeeping, not the oracle)
+                pass
+        if not np.isclose(x.sum() / nthrown, mi, rtol=1e-12, atol=0.0, equal_nan=True):
+            ctx.violation("compute", "integrand-column-vs-integral", f"sum({colname})/thrown = {float(x.sum() / nthrown)!r} but the header of the same table has {pre}MCINT = {mi!r}", case)
+        if nz != int(npass):
+            ctx.violation("compute", "integrand-column-vs-passing-count", f"{nz} non-zero rows in {colname} but the header of the same table has {pre}NEVPASS = {int(npass)}", case)
+        if rows >= 2:
+            with np.errstate(all="ignore"):
+                un = float(np.sqrt(np.var(x, ddof=1) / nthrown))
+            if not np.isclose(un, mu, rtol=1e-10, atol=0.0, equal_nan=True):
+                ctx.violation("compute", "integrand-column-vs-uncertainty", f"sqrt(var({colname}, ddof=1)/thrown) = {un!r} but the header of the same table has {pre}MCINTUN = {mu!r}", case)
+
+
+def target_veto_runs(ctx):
+    """(h') Target-mode runs with the dark-sky cut ON, observation windows of half a day to two days from random dates / source
+    positions and low trigger thresholds, so that some triggering instants fall in bright time (the configurations C13 and C03 use
+    to exercise the cut): each finished table goes through check_structure -> check_self_agreement."""
+    rng = np.random.Generator(np.random.PCG64([ctx.seed, 1402]))   # own stream: the existing streams keep their cases
+    want = 4 if not ctx.thorough else 12
+    key = "selfagree_Target_runs_with_bright_triggers"
+    for i in range(3 * want):
+        if i >= want and ctx.dist.get(key, 0) >= 2:
+            break
+        spec = ("mono", "power")[int(rng.integers(0, 2))]
+        cloud = ("none", "mono", "map")[int(rng.integers(0, 3))]
+        radio = bool(i % 2 == 0)
+        cfg = make_cfg("Target", spec, cloud, True, radio, float(rng.choice([33.0, 525.0])), int(rng.integers(600, 1500)), int(rng.integers(1, 13)))
+        tg = cfg.simulation.target
+        tg.source_RA = float(rng.uniform(0.0, 2 * np.pi))
+        tg.source_DEC = float(rng.uniform(-0.4, 0.4))
+        tg.source_obst = float(rng.choice([43200.0, 86400.0, 2 * 86400.0]))
+        tg.source_date = f"2022-{int(rng.integers(1, 13)):02d}-{int(rng.integers(1, 28)):02d}T{int(rng.integers(0, 24)):02d}:00:00"
+        sm = cfg.detector.sun_moon
+        sm.sun_moon_cuts = True
+        sm.sun_alt_cut = float(np.radians(rng.choice([-18.0, -12.0, -6.0, 0.0])))
+        sm.moon_min_phase_angle_cut = float(np.radians(rng.choice([150.0, 90.0])))
+        cfg.detector.optical.photo_electron_threshold = float(rng.choice([10.0, 1.0, 50.0]))
+        # target-mode SNRs are tiny: threshold 0 is where radio contributions exist at all
+        cfg.detector.radio.snr_threshold = float(rng.choice([0.0, 1e-290, 0.1, 5.0]))
+        seed = int(rng.integers(1, 2 ** 31))
+        label = f"Target/veto-on/{spec}/{cloud}/{'OR' if radio else 'O'}/{tg.source_date}/{tg.source_obst:g}s/seed{seed}"
+        try:
+            t = run_compute(cfg, seed, "synchronous")
+        except Exception as e:  # noqa
+            ctx.notes.append(f"target veto-on run {label} raised {type(e).__name__}: {str(e)[:80]}")
+            ctx.count("target_veto_runs_raised")
+            continue
+        ctx.count("target_veto_runs")
+        check_structure(ctx, cfg, t, label)
+
+
+# ----------------------------------------------------------------------------------------------------------------------------
+# (i) reproducible ACROSS PROCESSES.  Property text: "With the global random generator seeded, a full simulation produces a
+# bit-identical results table" — the table of a seeded configuration is a function of (configuration, seed), whichever process runs
+# it.  Everything above compares runs made inside this one interpreter.  Here the same (configuration, seed) pairs are run in fresh
+# child interpreters that differ in everything a process inherits that is NOT the configuration: string-hash salt (PYTHONHASHSEED,
+# several fixed values and the default random one), working directory, locale (LANG/LC_ALL), time zone; the finished tables —
+# ordered column names, dtypes/shapes, ordered header keys, header values, data bytes; only the wall-clock simTime excluded — must
+# be identical to each other and to the in-process run.
+def fingerprint(t):
+    import hashlib
+    keys = [k for k in t.meta if k != "simTime"]
+    return {"columns": list(t.colnames), "rows": int(len(t)) if len(t.colnames) else 0,
+            "dtypes": [f"{type(t[c]).__name__}:{getattr(t[c], 'dtype', '-')}{tuple(getattr(t[c], 'shape', ())[1:])}" for c in t.colnames],
+            "keys": keys, "header": {k: repr(t.meta[k]) for k in keys},
+            "data": {c: hashlib.sha256(col_bytes(t, c)).hexdigest() for c in t.colnames}}
+
+
+def fingerprint_diff(a, b):
+    """First difference between two fingerprints, most structural first ('' if none)."""
+    if "error" in a or "error" in b:
+        return "" if a.get("error") == b.get("error") else f"outcome: {a.get('error', 'a table')} vs {b.get('error', 'a table')}"
+    if a["columns"] != b["columns"]:
+        return "column order" if sorted(a["columns"]) == sorted(b["columns"]) else "column names"
+    if a["keys"] != b["keys"]:
+        return "header keyword order" if sorted(a["keys"]) == sorted(b["keys"]) else "header keywords"
+    if a["rows"] != b["rows"]:
+        return "row count"
+    if a["dtypes"] != b["dtypes"]:
+        return "column types"
+    for c in a["columns"]:
+        if a["data"][c] != b["data"][c]:
+            return f"bytes of column {c}"
+    for k in a["keys"]:
+        if a["header"][k] != b["header"][k]:
+            return f"value of header keyword {k}"
+    return ""
+
+
+def _xproc_one(js, seed):
+    import nuspacesim as nss
+    try:
+        cfg = nss.NssConfig.model_validate_json(js)
+        with quiet_stdout():
+            t = run_compute(cfg, seed, "synchronous")
+    except Exception as e:  # noqa
+        return {"error": f"{type(e).__name__}: {str(e)[:120]}"}
+    return fingerprint(t)
+
+
+def _xproc_child(job_path, out_path):
+    """Entry point of a child interpreter (python -c 'import C14; C14._xproc_child(...)')."""
+    import json
+    job = json.loads(open(job_path).read())
+    out = [_xproc_one(js, seed) for js, seed in job["runs"]]
+    import nuspacesim
+    with open(out_path, "w") as f:
+        json.dump({"package": nuspacesim.__file__, "fingerprints": out}, f)
+
+
+def xproc_launch(ctx):
+    import json
+    import os
+    import subprocess
+    import tempfile
+    from pathlib import Path
+    rng = np.random.Generator(np.random.PCG64([ctx.seed, 1401]))   # own stream: the existing streams keep their cases
+    pick = lambda xs: xs[int(rng.integers(0, len(xs)))]  # noqa: E731
+    specs, clouds, alts = ("mono", "power"), ("none", "mono", "map"), (33.0, 525.0)
+    cfgs = [make_cfg("Diffuse", pick(specs), pick(clouds), True, True, pick(alts), 80, int(rng.integers(1, 13))),
+            make_cfg("Target", pick(specs), pick(clouds), True, True, pick(alts), 400, int(rng.integers(1, 13))),
+            make_cfg("Diffuse", "mono", "none", True, True, 525.0, 0)]
+    for _ in range(1 if not ctx.thorough else 6):   # anywhere in the cross product, any channel mix
+        mode = pick(("Diffuse", "Target"))
+        cfgs.append(make_cfg(mode, pick(specs), pick(clouds), bool(rng.integers(0, 2)), bool(rng.integers(0, 2)), pick(alts),
+                             80 if mode == "Diffuse" else 400, int(rng.integers(1, 13))))
+    # the configuration travels as its own JSON dump; the in-process reference run uses the SAME re-read configuration
+    runs = [(c.model_dump_json(), int(rng.integers(1, 2 ** 31))) for c in cfgs]
+    tmp = Path(tempfile.mkdtemp(prefix="c14-xproc-"))
+    (tmp / "job.json").write_text(json.dumps({"runs": runs}))
+    props = str(Path(__file__).resolve().parent)
+    harness = str(Path(__file__).resolve().parent.parent)
+    nchild = 8 if not ctx.thorough else 14
+    salts = [str(i) for i in range(nchild - 1)] + ["random"]
+    langs = ["C", "C.UTF-8", "en_US.UTF-8", "de_DE.UTF-8", "tr_TR.UTF-8"]
+    zones = ["UTC", "America/New_York", "Asia/Tokyo", "Australia/Lord_Howe"]
+    children = []
+    for i, salt in enumerate(salts):
+        wd = [harness, str(tmp), "/", str(tmp / f"wd{i}")][i % 4]
+        os.makedirs(wd, exist_ok=True)
+        env = dict(os.environ)
+        env.update({"PYTHONHASHSEED": salt, "LANG": langs[i % len(langs)], "LC_ALL": langs[i % len(langs)], "TZ": zones[i % len(zones)],
+                    "PYTHONPATH": os.pathsep.join([harness, props] + [x for x in env.get("PYTHONPATH", "").split(os.pathsep) if x])})
+        if salt == "random":
+            env.pop("PYTHONHASHSEED")
+        out = tmp / f"out{i}.json"
+        code = f"import C14; C14._xproc_child({str(tmp / 'job.json')!r}, {str(out)!r})"
+        p = subprocess.Popen([sys.executable, "-c", code], cwd=wd, env=env, stdout=subprocess.DEVNULL, stderr=subprocess.PIPE)
+        children.append({"proc": p, "out": out, "env": {"PYTHONHASHSEED": salt, "cwd": wd, "LANG": langs[i % len(langs)], "TZ": zones[i % len(zones)]}})
+    ref = [_xproc_one(js, seed) for js, seed in runs]   # this interpreter, with whatever salt / directory / locale it has
+    return {"runs": runs, "ref": ref, "children": children, "tmp": tmp}
+
+
+def xproc_collect(ctx, xp):
+    import json
+    import shutil
+    import nuspacesim
+    for ch in xp["children"]:
+        try:
+            _, err = ch["proc"].communicate(timeout=600)
+        except Exception:  # noqa
+            ch["proc"].kill()
+            raise InfraError(f"C14 child process {ch['env']} did not finish")
+        if ch["proc"].returncode != 0 or not ch["out"].exists():
+            raise InfraError(f"C14 child process {ch['env']} failed: {err.decode(errors='replace')[-300:]}")
+        res = json.loads(ch["out"].read_text())
+        if res["package"] != nuspacesim.__file__:
+            raise InfraError(f"C14 child process imported {res['package']}, not {nuspacesim.__file__}")
+        ch["fp"] = res["fingerprints"]
+    ctx.count("xproc_children", len(xp["children"]))
+    for ri, (js, seed) in enumerate(xp["runs"]):
+        ref = xp["ref"][ri]
+        cfgd = json.loads(js)
+        lab = (f"{cfgd['simulation']['mode']}/{cfgd['simulation']['spectrum']['id']}/{cfgd['simulation']['cloud_model']['id']}/"
+               f"optical={cfgd['detector']['optical']['enable']}/radio={cfgd['detector']['radio']['enable']}/thrown={cfgd['simulation']['thrown_events']}/seed{seed}")
+        ctx.case(("xproc", lab) if ref.get("rows") else None, None, n=len(xp["children"]))
+        ctx.count("xproc_tables_compared", len(xp["children"]))
+        ctx.count("xproc_in_process_" + ("error" if "error" in ref else "table"))
+        others = [("this process", {}, ref)] + [(f"child {i}", ch["env"], ch["fp"][ri]) for i, ch in enumerate(xp["children"])]
+        for (na, ea, fa), (nb, eb, fb) in zip(others, others[1:]):
+            d = fingerprint_diff(ref, fb) or fingerprint_diff(fa, fb)
+            if d:
+                other = ref if fingerprint_diff(ref, fb) else fa
+                ctx.violation("compute", "process-dependent-table",
+                              f"the same seeded configuration gives a different table in another process: {d}",
+                              {"run": lab, "np_random_seed": seed, "difference": d, "process": eb, "compared_with": "this process" if other is ref else ea,
+                               "columns_there": fb.get("columns"), "columns_here": other.get("columns"),
+                               "integral_keys_there": [k for k in fb.get("keys", []) if k in SIGNAL_KEYS_O + SIGNAL_KEYS_R],
+                               "integral_keys_here": [k for k in other.get("keys", []) if k in SIGNAL_KEYS_O + SIGNAL_KEYS_R],
+                               "config": cfgd})
+    shutil.rmtree(xp["tmp"], ignore_errors=True)
+
+
+RULE += ("; (h) every finished table against itself: per enabled channel, sum(integrand column)/thrown = <pre>MCINT, non-zero rows = <pre>NEVPASS, "
+         "sqrt(var/thrown) = <pre>MCINTUN (Target), passing count <= triggering rows <= rows and integral <= 0.826 x geometric (both modes), including "
+         "Target runs with the dark-sky cut on whose triggering instants partly fall in bright time; (i) the same (configuration, seed) run in child "
+         "interpreters with different string-hash salts, working directories, locales and time zones: ordered columns, ordered header keys, values "
+         "and data bytes identical to each other and to the in-process run")
+
+
 def corners(ctx):
     # corners of the cross product: a power law of index exactly 1 (its own sampling branch) is as reproducible under a seed as any
     # other spectrum; a run with BOTH channels switched off still returns its table (geometry, spectrum, tau and decay columns)
@@ -243,7 +514,9 @@ def corners(ctx):
 
 def run(ctx: Ctx):
     import dask
+    xp = xproc_launch(ctx)   # (i) children run while the in-process streams do
     corners(ctx)
+    target_veto_runs(ctx)    # (h')
     rng = ctx.rng
     from xsched import make_get
     n = 120 if not ctx.thorough else 300
@@ -482,6 +755,7 @@ def run(ctx: Ctx):
             break
     ctx.count("zero_survivor_target_found", int(found))
     ctx.traces += len(combos)
+    xproc_collect(ctx, xp)   # (i)
 
 
 def search(ctx: Ctx):
